@@ -42,7 +42,7 @@ NEG = {
     "fg_no_tc": "FgResumed", "bg_gives_tty": "TakeBack", "async_gets_tty": "TakeBack",
     "fgjob_no_tty": "FgBeforeRun", "keep_ignoring": "JobDefaults", "subshell_jc": "ProbesLaw",
     "async_no_block": "AsyncLaw", "async_keeps_stdin": "AsyncLaw", "async_no_ignore": "AsyncLaw",
-    "reset_before_setpgid": "TakeBack", "bg_leader_only": "BgResumes", "pipe_no_job": "OwnGroup",
+    "reset_before_setpgid": "TakeBack", "reset_before_tcsetpgrp": "TakeBack", "bg_leader_only": "BgResumes", "pipe_no_job": "OwnGroup",
 }
 
 TIERS = {
